@@ -406,6 +406,7 @@ type FuncSpec struct {
 	LoopUse    map[int][]Clause
 	Uses       []Clause
 	CallReq    map[string][]Clause // callee pattern -> clauses
+	CallSpec   map[string]string   // function-typed variable -> key of the (assumed) contract its calls use
 	Allow      map[string]bool
 	Unreach    []string
 	File       string
@@ -416,8 +417,11 @@ type FuncSpec struct {
 	Out        []int
 	Ghosts     []Param
 	RawSlice   map[string]bool // local variables of an abstract list type that are modelled as concrete slices
+	Extend     bool            // `extend func KEY`: the clauses are appended to the contract of KEY declared earlier
 	SameAs     string          // interface method: the contract is that of this (verified) implementation
 	Dispatch   []string        // interface method: calls are a case split over the contracts of these (verified) implementations
+	Model      string          // calls execute the body of this Go function (same parameter list, receiver first) in place: an
+	// executable model of a function whose own body is not loaded (dependency, interface method) - assumed, reported
 }
 
 type GhostFunc struct {
@@ -468,11 +472,11 @@ type SpecFile struct {
 }
 
 var topKeywords = map[string]bool{"sort": true, "type": true, "alias": true, "world": true, "const": true, "specfunc": true,
-	"ghost": true, "lemma": true, "func": true, "global": true, "axiom": true, "uf": true}
+	"ghost": true, "lemma": true, "func": true, "global": true, "axiom": true, "uf": true, "extend": true}
 var subKeywords = map[string]bool{"ghostvar": true, "params": true, "pure": true, "def": true, "defsmt": true, "inline": true, "opaque": true, "trusted": true,
 	"fresh": true, "requires": true, "ensures": true, "modifies": true, "let": true, "loop": true, "use": true, "unfold": true,
 	"induction": true, "call": true, "allow": true, "unreachable": true, "reads": true, "nopanic": true, "maypanic": true, "out": true, "as": true,
-	"rawslice": true, "sameas": true, "dispatch": true}
+	"rawslice": true, "sameas": true, "dispatch": true, "model": true}
 
 // extractSpecText returns the contract text of a file: everything inside /*@ ... @*/ blocks,
 // or the whole file when there is no such block (lib spec files).
@@ -652,11 +656,19 @@ func ParseSpecFile(path, src, pkgPath string) (*SpecFile, error) {
 			}
 			curL = &Lemma{Name: name, Params: params, File: path, Line: c.line}
 			sf.Lemmas = append(sf.Lemmas, curL)
-		case "func":
+		case "func", "extend":
 			key := strings.TrimSpace(c.rest)
+			if c.kw == "extend" {
+				// extend func KEY: more clauses (requires / ensures / modifies / let / call ... requires) for a contract declared
+				// in an earlier file - a property family adds its view of a shared dependency without editing the shared spec
+				if !strings.HasPrefix(key, "func ") {
+					return nil, errf(c, "extend func KEY")
+				}
+				key = strings.TrimSpace(strings.TrimPrefix(key, "func "))
+			}
 			key = qualifyFuncKey(key, pkgPath)
 			curF = &FuncSpec{Key: key, LoopInv: map[int][]Clause{}, LoopUse: map[int][]Clause{}, CallReq: map[string][]Clause{},
-				Allow: map[string]bool{}, File: path, Line: c.line}
+				Allow: map[string]bool{}, File: path, Line: c.line, Extend: c.kw == "extend"}
 			sf.Funcs = append(sf.Funcs, curF)
 		// ---- sub clauses
 		case "ghostvar":
@@ -740,6 +752,11 @@ func ParseSpecFile(path, src, pkgPath string) (*SpecFile, error) {
 				return nil, errf(c, "sameas outside func")
 			}
 			curF.SameAs = qualifyFuncKey(strings.TrimSpace(c.rest), pkgPath)
+		case "model":
+			if curF == nil {
+				return nil, errf(c, "model outside func")
+			}
+			curF.Model = qualifyFuncKey(strings.TrimSpace(c.rest), pkgPath)
 		case "dispatch":
 			if curF == nil {
 				return nil, errf(c, "dispatch outside func")
@@ -923,7 +940,16 @@ func ParseSpecFile(path, src, pkgPath string) (*SpecFile, error) {
 			if curF == nil {
 				return nil, errf(c, "call outside func")
 			}
-			// call PATTERN requires EXPR   |   call PATTERN use L(args)
+			// call PATTERN requires EXPR   |   call PATTERN use L(args)   |   call VAR contract KEY
+			if kc := strings.Index(c.rest, " contract "); kc >= 0 && !strings.Contains(c.rest[:kc], " requires ") && !strings.Contains(c.rest[:kc], " use ") {
+				// calls through the function-typed variable VAR (a function value the verified function received from a callee)
+				// are replaced by the contract KEY instead of being opaque; that the value satisfies KEY is an assumption
+				if curF.CallSpec == nil {
+					curF.CallSpec = map[string]string{}
+				}
+				curF.CallSpec[strings.TrimSpace(c.rest[:kc])] = qualifyFuncKey(strings.TrimSpace(c.rest[kc+len(" contract "):]), pkgPath)
+				break
+			}
 			if ku := strings.Index(c.rest, " use "); ku >= 0 && !strings.Contains(c.rest[:ku], " requires ") {
 				pat := strings.TrimSpace(c.rest[:ku])
 				cl, err := parseClause(c, strings.TrimSpace(c.rest[ku+len(" use "):]))
